@@ -182,6 +182,7 @@ func c12Decision(c *Ctx, p *Prog, m *Model) {
 	}
 	// collect atoms in term and in repo helpers it may inline
 	atomSet := map[string]bool{}
+	inlinedHelpers := map[string]bool{} // boolean helpers whose own conditions were collected: they are inlined, not atoms
 	var collect func(fn *ssa.Function, depth int)
 	collect = func(fn *ssa.Function, depth int) {
 		for _, a := range condAtomsOf(fn, namer) {
@@ -196,6 +197,7 @@ func c12Decision(c *Ctx, p *Prog, m *Model) {
 					_ = b
 				}
 				if cal.Signature.Results().At(0).Type().String() == "bool" && nm(cal) != "IsAnyBitsSet" && nm(cal) != "IsAllBitsSet" {
+					inlinedHelpers[shortName(cal)] = true
 					collect(cal, depth+1)
 				}
 			}
@@ -214,6 +216,14 @@ func c12Decision(c *Ctx, p *Prog, m *Model) {
 				}
 			}
 			collect(cal, 0)
+		}
+	}
+	for a := range atomSet {
+		if strings.HasPrefix(a, "other:call ") {
+			name := strings.TrimPrefix(a, "other:call ")
+			if i := strings.Index(name, "("); i > 0 && inlinedHelpers[name[:i]] {
+				delete(atomSet, a)
+			}
 		}
 	}
 	// make sure the spec atoms exist
